@@ -22,19 +22,19 @@ func (v *Value) UnmarshalNBT(tagType byte, r nbt.DecoderReader) error {
 		v.data = append(v.data[:0], n)
 
 	case nbt.TagShort:
-		if _, err := r.Read(buf[:2]); err != nil {
+		if _, err := io.ReadFull(r, buf[:2]); err != nil {
 			return err
 		}
 		v.data = append(v.data[:0], buf[:2]...)
 
 	case nbt.TagInt, nbt.TagFloat:
-		if _, err := r.Read(buf[:4]); err != nil {
+		if _, err := io.ReadFull(r, buf[:4]); err != nil {
 			return err
 		}
 		v.data = append(v.data[:0], buf[:4]...)
 
 	case nbt.TagLong, nbt.TagDouble:
-		if _, err := r.Read(buf[:]); err != nil {
+		if _, err := io.ReadFull(r, buf[:]); err != nil {
 			return err
 		}
 		v.data = append(v.data[:0], buf[:]...)
